@@ -245,6 +245,25 @@ bool ConfigObjectUtility::CreateObject(const Type::Ptr& type, const String& full
 			return false;
 		}
 
+		/* The committed object must carry the requested name. A composite name such as "h!!n" re-composes
+		 * to "h!n" and attrs may set __name: the object would be activated under another name while the
+		 * lookup by fullName below fails and its config file is removed. Roll back like CommitItems() does. */
+		for (const ConfigItem::Ptr& item : newItems) {
+			ConfigObject::Ptr object = item->GetObject();
+
+			if (object && object->GetReflectionType() == type && object->GetName() != fullName) {
+				String actualName = object->GetName();
+
+				for (const ConfigItem::Ptr& newItem : newItems)
+					newItem->Unregister();
+
+				if (errors)
+					errors->Add("Object '" + fullName + "' would be created with the name '" + actualName + "'.");
+
+				return false;
+			}
+		}
+
 		/*
 		 * Activate the config object.
 		 * uq, items, runtimeCreated, silent, withModAttrs, cookie
